@@ -479,7 +479,7 @@ class Scenario(object):
     """Finite facts a path depends on."""
     def __init__(self, name='', bind=None, axioms=None, inline=None, inline_props=None, max_depth=3, self_cls=None,
                  args=None, unroll=None, oracle=None, forward_stores=True, model_del=True, join_unknown=False,
-                 decide_filters=False):
+                 decide_filters=False, raises=None):
         self.name = name
         self.bind = bind or {}            # dotted path -> Val
         self.axioms = axioms or {}        # normalised condition text -> bool
@@ -494,10 +494,19 @@ class Scenario(object):
         self.model_del = model_del        # del buf[:n] rebinds buf to the remaining octets (False for reader-sequence extraction)
         self.join_unknown = join_unknown  # undecided `if`: run both arms and join the normal exits (call/store sets are united)
         self.decide_filters = decide_filters   # comprehension filters the scenario decides are applied (True: dropped, False: empty result)
+        self.raises = raises              # callable(call text) -> exception text | None: calls the scenario says raise (the statement
+                                          # ends the path with status 'raise' in the state reached so far; an enclosing try may catch it)
 
 
 BUILTIN_TYPES = {'str', 'bytes', 'bytearray', 'int', 'bool', 'list', 'tuple', 'set', 'dict', 'NoneType', 'datetime',
                  'timedelta'}
+
+
+class CallRaises(Exception):
+    """A call the scenario declares as raising (Scenario.raises) was evaluated."""
+    def __init__(self, text):
+        Exception.__init__(self, text)
+        self.text = text
 
 
 class Interp(object):
@@ -595,7 +604,14 @@ class Frame(object):
         if m is None:
             self.I.notes.append('unmodelled statement %s in %s' % (type(node).__name__, self.fi.qualname))
             return [(st, 'normal')]
-        return m(node, st)
+        if self.sc.raises is None:
+            return m(node, st)
+        try:
+            return m(node, st)
+        except CallRaises as ex:
+            st.raised = ex.text
+            st.events.append(('raise', ex.text, getattr(node, 'lineno', 0)))
+            return [(st, 'raise')]
 
     def st_Pass(self, node, st):
         return [(st, 'normal')]
@@ -1518,6 +1534,10 @@ class Frame(object):
         def record(ft):
             st.calls.append((ft, [render(a) for a in args], {k: render(v) for k, v in kwargs.items()}, node.lineno, node))
             st.events.append(('call', ft, [render(a) for a in args], {k: render(v) for k, v in kwargs.items()}, node.lineno))
+            if self.sc.raises is not None:
+                exc = self.sc.raises(ft)
+                if exc:
+                    raise CallRaises(exc)
 
         # ---- method calls on interpreted values
         if isinstance(func, ast.Attribute):
